@@ -67,7 +67,7 @@ func (w *Worker) newPath(h *ssa.Function, prefix []int) *Path {
 		maxSteps: e.maxSteps, maxDepth: e.maxDepth, globals: map[*ssa.Global]*Value{}, initDone: map[*ssa.Package]bool{},
 		side: map[*Value]interface{}{}, asserts: map[string]bool{}, covers: map[string]bool{}, coverSeen: map[string]bool{},
 		witnessed: map[string]bool{}, ufApps: map[string][]*Term{}, modelsHit: map[string]bool{}, fnsHit: map[*ssa.Function]bool{},
-		nativesHit: map[string]bool{}, stubsHit: map[string]bool{}, preds: map[string]*Term{}, mapOrderRev: e.mapOrderRev}
+		nativesHit: map[string]bool{}, stubsHit: map[string]bool{}, preds: map[string]*Term{}, mapOrderRev: e.mapOrderRev, simpMemo: map[int]*Term{}, simpVersion: -1}
 }
 
 func (w *Worker) runPath(h *ssa.Function, prefix []int, wantSample bool) (res *PathResult) {
@@ -223,6 +223,22 @@ func (rs *RunState) explore(h *ssa.Function, nworkers int) {
 	inflight := 0
 	done := false
 	var wg sync.WaitGroup
+	if os.Getenv("POLYSYM_PROGRESS") != "" {
+		stop := make(chan struct{})
+		defer close(stop)
+		go func() {
+			for {
+				select {
+				case <-stop:
+					return
+				case <-time.After(10 * time.Second):
+					mu.Lock()
+					fmt.Fprintf(os.Stderr, "    [%s] %d paths done, %d on stack, %d in flight, %.0fs\n", h.Name(), st.Paths, len(stack), inflight, time.Since(t0).Seconds())
+					mu.Unlock()
+				}
+			}
+		}()
+	}
 	for i := 0; i < nworkers; i++ {
 		wg.Add(1)
 		go func(id int) {
@@ -258,6 +274,9 @@ func (rs *RunState) explore(h *ssa.Function, nworkers int) {
 
 				res := w.runPath(h, prefix, wantSample)
 
+				if os.Getenv("POLYSYM_DUMP_PREFIX") != "" {
+					fmt.Fprintf(os.Stderr, "PREFIX %v %s\n", prefix, res.status)
+				}
 				mu.Lock()
 				inflight--
 				st.Paths++
